@@ -40,7 +40,13 @@ EXTENDS Integers, Sequences, FiniteSets, TLC
 CONSTANTS Stages,        \* evaluations per attempt (DOPRI5: 6, DOP853: 11)
           AccEvals,      \* evaluations on acceptance, before the stiffness test (DOPRI5: 0, DOP853: 1)
           DenseEvals,    \* extra evaluations when dense coefficients are built (DOPRI5: 0, DOP853: 3)
-          StiffEvery,    \* nstiff (1000 in the code)
+          CountRule,     \* "hairer": steps.total counts attempts, budget test total > nmax, a rejection is counted once two
+                         \*           steps were accepted (DOPRI5, DOP853)
+                         \* "scipy":  steps.total counts accepted steps, budget test total >= nmax, every rejection is counted
+                         \*           (RK23, RK4)
+          HasHinit,      \* an automatic first step is computed by hinit when none is given (not RK4: span / 100)
+          HasSmall,      \* the underflow guard exists (not RK4)
+          StiffEvery,    \* nstiff (1000 in the code; 0: no stiffness test)
           StiffLimit,    \* 15
           NonStiffReset, \* 6
           Metric         \* TRUE: positions are distances (bounded model); FALSE: ranks (traces)
@@ -67,7 +73,7 @@ Finish(st) == pc' = "done" /\ status' = st
 F0Eval(h0) ==
     /\ pc = "f0"
     /\ nOde' = nOde + 1
-    /\ IF P.hasFs THEN h0 > 0 /\ h' = h0 /\ pc' = "cb0" ELSE h' = h /\ pc' = "hinit"
+    /\ IF P.hasFs \/ ~HasHinit THEN h0 > 0 /\ h' = h0 /\ pc' = "cb0" ELSE h' = h /\ pc' = "hinit"
     /\ UNCHANGED <<P, x, xph, last, reject, status, k, total, acc, rej, ncb, iasti, nonstiff, evalMax>>
 
 \* hinit's explicit Euler probe at x0 + h_probe (bounded by h_max and the interval: repair 47bfa2a), then the step it returns
@@ -97,44 +103,54 @@ ModEval0 ==
 \* small: the underflow guard fired;  land: the landing test fired;  e: where the attempt ends (x + h after the landing clamp)
 Top(small, land, e) ==
     /\ pc = "top"
-    /\ IF P.nmax >= 0 /\ total > P.nmax
+    /\ IF P.nmax >= 0 /\ (IF CountRule = "hairer" THEN total > P.nmax ELSE total >= P.nmax)
        THEN Finish("NeedLargerNMax") /\ UNCHANGED <<h, xph, last, total, k>>
-       ELSE IF small \/ (Metric /\ h = 0)
+       ELSE IF HasSmall /\ (small \/ (Metric /\ h = 0))
        THEN /\ (Metric => h = 0)
             /\ Finish("StepSizeTooSmall") /\ UNCHANGED <<h, xph, last, total, k>>
-       ELSE /\ (Metric => h > 0)
+       ELSE /\ ~small
+            /\ (Metric => h > 0)
             /\ IF land
-               THEN /\ (Metric => x + h >= P.xe)              \* 1% stretch: integer positions have none
-                    /\ AtEnd(e) /\ last' = TRUE                 \* x + (xend - x) is xend to an ulp
-               ELSE /\ (Metric => (e = x + h /\ e < P.xe))
-                    /\ e > x /\ (~Metric => e < P.slo) /\ last' = last     \* x + 1.01 h does not reach xend
+               THEN /\ (Metric => x + h >= P.xe)              \* 1% stretch (hairer, RK4): integer positions have none
+                    /\ AtEnd(e)                                \* x + (xend - x) is xend to an ulp
+                    \* (RK23 leaves on x == xend exactly: an arrival one ulp off is followed by one more, tiny, clamped attempt -
+                    \*  possibly backwards)
+                    /\ last' = IF CountRule = "scipy" /\ HasSmall THEN (e = P.xe) ELSE TRUE
+                    /\ (e > x \/ (~Metric /\ AtEnd(x)))
+               ELSE /\ (Metric => (e = x + h /\ (e < P.xe \/ (CountRule = "scipy" /\ HasSmall /\ e = P.xe))))
+                    /\ e > x
+                    /\ (~Metric => IF CountRule = "scipy" /\ HasSmall THEN e <= P.shi ELSE e < P.slo)     \* x + 1.01 h does not reach xend
+                    /\ last' = IF CountRule = "scipy" /\ HasSmall THEN (e = P.xe) ELSE last
             /\ h' = IF Metric THEN e - x ELSE h
-            /\ xph' = e /\ total' = total + 1 /\ k' = 0
+            /\ xph' = e /\ total' = (IF CountRule = "hairer" THEN total + 1 ELSE total) /\ k' = 0
             /\ pc' = "stages" /\ UNCHANGED status
     /\ UNCHANGED <<P, x, reject, nOde, acc, rej, ncb, iasti, nonstiff, evalMax>>
 
 \* one stage: an evaluation inside the attempt; the last one at its end
 StageEval(p) ==
     /\ pc = "stages" /\ k < Stages
-    /\ p >= x /\ p <= xph
+    /\ (IF xph >= x THEN p >= x /\ p <= xph ELSE p <= x /\ p >= xph)
     /\ (k + 1 = Stages => p = xph)
     /\ nOde' = nOde + 1 /\ k' = k + 1 /\ evalMax' = Max2(evalMax, p)
     /\ pc' = IF k + 1 = Stages THEN "err" ELSE "stages"
     /\ UNCHANGED <<P, x, h, xph, last, reject, status, total, acc, rej, ncb, iasti, nonstiff>>
 
 \* ok: err <= 1;  g: the step proposed after a rejection
+\* (RK4 - the one stepper without the underflow guard - has no error test: every attempt is accepted)
 ErrTest(ok, g) ==
     /\ pc = "err"
+    /\ (~ok => HasSmall)
     /\ IF ok
        THEN /\ acc' = acc + 1
+            /\ total' = (IF CountRule = "hairer" THEN total ELSE total + 1)
             /\ nOde' = nOde + AccEvals
-            /\ pc' = IF (acc' % StiffEvery = 0) \/ iasti > 0 THEN "stiff" ELSE "dense"
+            /\ pc' = IF StiffEvery > 0 /\ ((acc' % StiffEvery = 0) \/ iasti > 0) THEN "stiff" ELSE "dense"
             /\ UNCHANGED <<h, reject, last, rej>>
        ELSE /\ g >= 0 /\ (Metric => g < h)
             /\ h' = g /\ reject' = TRUE /\ last' = FALSE
-            /\ rej' = IF acc > 1 THEN rej + 1 ELSE rej          \* as coded: rejections before the second accepted step are not counted
-            /\ pc' = "top" /\ UNCHANGED <<acc, nOde>>
-    /\ UNCHANGED <<P, x, xph, status, k, total, ncb, iasti, nonstiff, evalMax>>
+            /\ rej' = IF acc > 1 \/ CountRule = "scipy" THEN rej + 1 ELSE rej   \* hairer, as coded: rejections before the second accepted step are not counted
+            /\ pc' = "top" /\ UNCHANGED <<acc, nOde, total>>
+    /\ UNCHANGED <<P, x, xph, status, k, ncb, iasti, nonstiff, evalMax>>
 
 \* fire: the stiffness quotient exceeded its bound
 StiffTest(fire) ==
@@ -176,6 +192,7 @@ Post(g) ==
        THEN Finish("Success") /\ UNCHANGED <<h, reject>>
        ELSE /\ g >= 0 /\ (Metric => g <= P.hmax)
             /\ (Metric /\ reject => g <= h)
+            /\ (Metric /\ ~HasSmall => g = h)                \* RK4: the step is fixed
             /\ h' = g /\ reject' = FALSE
             /\ pc' = "top" /\ UNCHANGED status
     /\ UNCHANGED <<P, x, xph, last, k, nOde, total, acc, rej, ncb, iasti, nonstiff, evalMax>>
@@ -188,11 +205,13 @@ D_Span ==
     /\ evalMax <= P.shi /\ x <= P.shi /\ x >= P.x0
     /\ (status = "Success" => AtEnd(xph) /\ last)          \* the last committed step ended at xend (a callback may have moved x since)
 \* the budget: never more than max_steps + 1 attempts are counted
-D_Budget == P.nmax >= 0 => total <= P.nmax + 1
+D_Budget == P.nmax >= 0 => total <= P.nmax + (IF CountRule = "hairer" THEN 1 ELSE 0)
 \* the evaluation counter is what the structure of the loop implies
 D_Counts ==
-    /\ acc + rej <= total
-    /\ pc # "f0" => nOde >= 1 + total * Stages - (IF pc = "stages" THEN Stages - k ELSE 0) + acc * AccEvals
+    /\ (IF CountRule = "hairer" THEN acc + rej <= total ELSE total = acc)
+    /\ pc # "f0" => nOde >= 1 + (IF CountRule = "hairer" THEN total * Stages - (IF pc = "stages" THEN Stages - k ELSE 0)
+                                                        ELSE (acc + rej) * Stages + (IF pc = "stages" THEN k ELSE 0))
+                           + acc * AccEvals
     /\ ncb <= acc + 1
     /\ (pc \in {"post", "mod", "top", "stages", "err"} => ncb = acc + 1)           \* every committed step was reported
     /\ (status = "ProbablyStiff" => ncb = acc)                                     \* ... except the one the stiffness exit drops
@@ -205,7 +224,7 @@ D_Stiff ==
 D_Flags ==
     /\ status \in {"None", "Success", "UserInterrupt", "NeedLargerNMax", "StepSizeTooSmall", "ProbablyStiff"}
     /\ (pc = "done" <=> status # "None")
-    /\ (status = "NeedLargerNMax" => P.nmax >= 0 /\ total = P.nmax + 1)
+    /\ (status = "NeedLargerNMax" => P.nmax >= 0 /\ total = P.nmax + (IF CountRule = "hairer" THEN 1 ELSE 0))
 \* liveness (under weak fairness of the loop and with a budget): every run ends
 D_Terminates == <>(pc = "done")
 =============================================================================
